@@ -48,7 +48,7 @@ func (r *hFailingReader) Read(p []byte) (int, error) {
 }
 
 var hInputCommands = []string{"register", "register-single-element", "balance", "csv-log", "print", "summary", "summary-earlier-day",
-	"report-unresolved", "report-quantity", "report-totals", "lint", "register-with-end", "print-with-end", "csv-database", "csv-database-resolved", "report-element-total"}
+	"report-unresolved", "report-quantity", "report-totals", "lint", "lint-silent", "register-with-end", "print-with-end", "csv-database", "csv-database-resolved", "report-element-total"}
 
 // a log that is not in date order: a day inside the periods used below is written after later days
 const hInLog = "2021/01/02:\n  food/a: 2\n2021/01/05:\n  x: 1\n2021/01/03:\n  food/b: 1.5\n2021/01/01:\n  unknown: 3\n"
@@ -122,9 +122,9 @@ func Harness_failing_input() {
 		err = report.ReportQuantity(logS, report.ReportQuantityConfig{DateFormat: df, ParserConfig: pc, ReporterConfig: rc})
 	case "report-totals":
 		err = report.ReportTotals(logS, dbS, report.ReportTotalsConfig{DateFormat: df, ParserConfig: pc, ResolverConfig: rs, ReporterConfig: rc})
-	case "lint":
+	case "lint", "lint-silent":
 		usesBook = false
-		err = lint.Lint(logS, lint.LintConfig{ParserConfig: pc, ReporterConfig: rc})
+		err = lint.Lint(logS, lint.LintConfig{Silent: cmd == "lint-silent", ParserConfig: pc, ReporterConfig: rc})
 	case "csv-database":
 		err = csv.CSVDatabase(dbS, csv.CSVDatabaseConfig{ParserConfig: pc, ReporterConfig: rc})
 	case "csv-database-resolved":
